@@ -1,7 +1,7 @@
 """Script generator for C05 (LUDecomposition.h, MatrixTools::inv / det).
 
 Every case: `case <tag> <storage of A> <storage of B> <storage of X>` followed by
-  lu m n A | solve mb nx B | inv m n A | det m n A | dett n A | detmul n A B
+  lu m n A | solve mb nx B | solvev mb b | inv m n A | det m n A | dett n A | detmul n A B
 Matrix families (n = 1..10): integer entries in [-9,9]; dyadic entries (all arithmetic exact, so
 exact zero pivots occur); permuted triangular; rank-deficient (integer products of thin factors,
 repeated / zero rows and columns); prescribed singular values (condition number 1..1e6 and
@@ -118,6 +118,12 @@ def square_case(rng, tag, A, integer, ops_extra=True):
     for _ in range(rng.randint(1, 2)):
         nx = rng.randint(1, 4)
         ops.append("solve " + mat(rhs(rng, n, nx, integer and rng.random() < 0.7)))
+    if rng.random() < 0.6:
+        b = rhs(rng, n, 1, integer and rng.random() < 0.7)
+        ops.append("solvev %d %s" % (n, " ".join(hx(r_[0]) for r_ in b)))
+    if rng.random() < 0.04:
+        mb = rng.choice([x for x in range(0, 12) if x != n])
+        ops.append(("solvev %d %s" % (mb, " ".join(hx(rng.randint(-9, 9)) for _ in range(mb)))).strip())
     r = rng.random()
     if r < 0.08:
         mb = rng.choice([x for x in range(0, 12) if x != n])
@@ -222,7 +228,7 @@ def coverage_extra(cases, answers):
                     nn = int(u[1]); vals = u[2:]
                     if any(vals[i * nn + i] in ("0000000000000000", "8000000000000000") for i in range(nn)):
                         zero_piv += 1
-            if t[0] in ("solve", "inv"):
+            if t[0] in ("solve", "solvev", "inv"):
                 if r == "exc:zerodiv": zerodiv += 1
                 elif r.startswith("minD"): solved += 1
             if r.startswith("crash"): ub += 1
